@@ -25,6 +25,8 @@ RATE_TABLES = [
     {1: 1e3, 2: 1e-5},
     {1: 0.30000000000000004, 2: 0.1},
 ]
+# whole-number rates: exactly representable as float32 and as integers (the rate array's dtype is the caller's)
+INT_TABLE = {1: 2.0, 2: 5.0}
 
 
 class Builder:
@@ -46,7 +48,7 @@ class Builder:
         org, _ = self._regions[nc]
         return self.Grid.from_origins(org, dh=1.0)
 
-    def forecast(self, data, name='f', layout='C'):
+    def forecast(self, data, name='f', layout='C', dtype=None):
         """layout: 'C' contiguous, 'F' Fortran-ordered, 'T' a transposed view of a (magnitude, cell) table - the rate
         of (cell, bin) is the same in all three, only the memory order differs"""
         numpy = self.numpy
@@ -57,6 +59,9 @@ class Builder:
             arr = numpy.asfortranarray(arr)
         elif layout == 'T':
             arr = numpy.ascontiguousarray(arr.T).T
+        if dtype is not None:
+            # rate arrays arrive as whatever the caller built: float32, integer ...
+            arr = arr.astype(dtype)
         return self.GF(region=self.region(nc), magnitudes=mags, data=arr, name=name)
 
     def catalog(self, w, nc, nb, rng=None):
@@ -100,11 +105,11 @@ def run(chk, replay=None):
                 'from TLC, evaluated for several rate tables; traces = random forecasts up to 40x8 with simulated catalogs. '
                 'non-trivial = distinct (kind, rate-ids, counts) with a multi-event bin, a zero-rate bin or N_obs != 1')
 
-    def check_case(case, table):
+    def check_case(case, table, dtype=None):
         kind, rid, w = case['kind'], case['rid'], case['w']
         nc, nb = len(rid), len(rid[0])
         data = numpy.array([[table.get(rid[c][b], 0.0) for b in range(nb)] for c in range(nc)], dtype=float)
-        fc = B.forecast(data)
+        fc = B.forecast(data, dtype=dtype)
         cat = B.catalog(w, nc, nb)
         res = call_test(pe, kind, fc, cat, 2)
         chk.count()
@@ -118,7 +123,7 @@ def run(chk, replay=None):
 
     if replay:
         d = replay['detail']
-        bad = check_case(d['case'], {int(k): v for k, v in d['table'].items()})
+        bad = check_case(d['case'], {int(k): v for k, v in d['table'].items()}, d.get('dtype'))
         if bad:
             chk.violation(replay['signature'], dict(d, mismatch=bad))
         chk.sample({'replayed': d['case']['rid']})
@@ -146,6 +151,13 @@ def run(chk, replay=None):
                          ('multi-event-bin' if any(x > 1 for r in w for x in r) else ('empty' if n == 0 else 'simple')))
                 chk.violation('gen:%s:%s:%s' % (case['kind'], bad['why'], shape),
                               {'case': case, 'table': {str(k): v for k, v in table.items()}, 'mismatch': bad})
+        if ci % 4 == chk.seed % 4:
+            dt = ['float32', 'int64', 'int32', 'float16'][(ci // 4) % 4]
+            bad = check_case(case, INT_TABLE, dt)
+            if bad:
+                nbad += 1
+                chk.violation('gen:%s:%s:dtype-%s' % (case['kind'], bad['why'], dt),
+                              {'case': case, 'table': {str(k): v for k, v in INT_TABLE.items()}, 'dtype': dt, 'mismatch': bad})
         if ci in (100, 7000):
             chk.sample({'case': {'kind': case['kind'], 'rid': case['rid'], 'w': w}, 'xr_stat': case['stat']})
     if nbad == 0:
